@@ -198,6 +198,50 @@ def check_events(ctx, L, what, events, field_bytes, payload, accepted_input=None
     return True
 
 
+def lazy_print(ctx, L, t, cc, enc, data, eager_rows, payload, what):
+    """The README's way of printing: the decoder's generator handed straight to the printer, in strict mode.  When the decode
+    raises in the middle, the rows printed so far must be rows of the eager print-out, in order, and the printer must be left
+    in working order: a canary word printed afterwards still gets its bit rows."""
+    from tpmstream.common.event import MarshalEvent
+    from tpmstream.common.path import Path, PathNode
+    from tpmstream.io.binary import Binary
+    from tpmstream.io.pretty import Pretty
+    from tpmstream.spec.structures.constants import TPM_CC
+
+    kw = dict(tpm_type=O.lib_type(t), buffer=bytes(data), abort_on_error=True)
+    if cc is not None:
+        kw["command_code"] = TPM_CC(cc)
+    if enc:
+        kw["parameter_encryption"] = True
+    rows = []
+    try:
+        for r in Pretty.unmarshal(Binary.marshal(**kw)):
+            rows.append(r)
+    except O.DOCUMENTED:
+        pass
+    except Exception as exc:  # noqa: BLE001
+        sig = O.crash_signature(exc)
+        ctx.problem(f"C14:lazy:crash:{sig['class']}@{sig['where']}", f"printing the lazy strict decode failed with {sig['class']}: {sig['message']}; {what}", payload)
+        return False
+    ctx.count("lazy-prints-of-rejected-inputs")
+    a = [strip_ansi(r) for r in rows]
+    b = [strip_ansi(r) for r in eager_rows]
+    k = 0
+    for r in a:  # every lazily printed row appears in the eager print-out, in order
+        while k < len(b) and b[k] != r:
+            k += 1
+        if k == len(b):
+            ctx.problem("C14:lazy:rows", f"the lazy print-out holds the row {r!r} which the print-out of the same events does not (in this order); {what}", payload)
+            return False
+        k += 1
+    T = O.lib_type("TPMA_SESSION")
+    canary = list(Pretty.unmarshal([MarshalEvent(Path(PathNode("")) / PathNode("canary"), T, T(0x21))]))
+    if len(canary) != 1 + len(T(0x21).attributes()):
+        ctx.problem("C14:lazy:printer-state", f"after printing a lazy decode that raised, a TPMA_SESSION word is printed with {len(canary) - 1} bit rows instead of {len(T(0x21).attributes())}; {what}", payload)
+        return False
+    return True
+
+
 def judge(ctx, L, t, cc, enc, data, how=""):
     O.reset_state()
     payload = {"type": t, "cc": cc, "enc": bool(enc), "data": bytes(data)}
@@ -205,6 +249,13 @@ def judge(ctx, L, t, cc, enc, data, how=""):
     for strict in (False, True):
         obs = O.run_decode(t, data, command_code=cc, enc=enc, strict=strict)
         if strict and obs.outcome["kind"] != "ok":
+            if obs.outcome["kind"] in ("crash", "runaway") or len(data) > 4096:
+                continue
+            from tpmstream.io.pretty import Pretty
+
+            eager = ctx.guard(lambda: list(Pretty.unmarshal(list(obs.raw))), "C14:pretty", payload)
+            if eager is None or not lazy_print(ctx, L, t, cc, enc, data, eager, payload, what + " (strict, lazy)"):
+                return False
             continue
         events = obs.raw
         field_bytes = b"".join(int(e[2]).to_bytes(L.width(e[1]), "big", signed=L.signed(e[1])) for e in obs.events if e[0][0:1] != "!" and e[2] != ELLIPSIS and L.is_prim(e[1]))
